@@ -33,6 +33,8 @@ type Loaded struct {
 	chaG    *callgraph.Graph
 	vtaG    *callgraph.Graph
 	declOf  map[*types.Func]*ast.FuncDecl
+	callers map[*ssa.Function][]ssa.CallInstruction
+	addrTaken map[*ssa.Function]bool
 	NumFunc int
 }
 
@@ -358,4 +360,58 @@ func tstr(t types.Type) string {
 		}
 		return p.Name()
 	})
+}
+
+// StaticCallers returns the call instructions in repository functions whose
+// static callee is fn.
+func (l *Loaded) StaticCallers(fn *ssa.Function) []ssa.CallInstruction {
+	if l.callers == nil {
+		l.callers = map[*ssa.Function][]ssa.CallInstruction{}
+		for _, f := range l.RepoFuncs(nil) {
+			eachInstr(f, func(ins ssa.Instruction) {
+				if ci, ok := ins.(ssa.CallInstruction); ok {
+					if cal := ci.Common().StaticCallee(); cal != nil {
+						l.callers[cal] = append(l.callers[cal], ci)
+					}
+				}
+			})
+		}
+	}
+	return l.callers[fn]
+}
+
+// AddressTaken reports whether fn is used as a value (stored, passed) anywhere
+// in the repository, in which case its callers cannot be enumerated.
+func (l *Loaded) AddressTaken(fn *ssa.Function) bool {
+	if l.addrTaken == nil {
+		l.addrTaken = map[*ssa.Function]bool{}
+		for _, f := range l.RepoFuncs(nil) {
+			eachInstr(f, func(ins ssa.Instruction) {
+				var ops []*ssa.Value
+				for _, op := range ins.Operands(ops) {
+					if op == nil || *op == nil {
+						continue
+					}
+					g, ok := (*op).(*ssa.Function)
+					if !ok {
+						continue
+					}
+					if ci, isCall := ins.(ssa.CallInstruction); isCall && ci.Common().Value == g {
+						// direct call position only
+						direct := true
+						for _, a := range ci.Common().Args {
+							if a == g {
+								direct = false
+							}
+						}
+						if direct {
+							continue
+						}
+					}
+					l.addrTaken[g] = true
+				}
+			})
+		}
+	}
+	return l.addrTaken[fn]
 }
